@@ -34,17 +34,24 @@ def sortStrs (l : List String) : List String := l.foldr insertStr []
 def showKeys (keys : List Bytes) : String :=
   if keys.isEmpty then "none" else "+".intercalate (sortStrs (keys.map hexArg))
 
-def showAgg (idx : Nat) (s : Stream) : String :=
-  match s.bounds with
-  | none => aggShow s.agg
+/-- a=hist (default boundaries) or a=hist:<b1>:<b2>…, then @<index> for every bucket that counted a value -/
+def showAgg (e : Entry) : String :=
+  match e.stream.bounds with
+  | none => aggShow e.stream.agg
   | some b =>
-    -- a=hist (default boundaries) or a=hist:<b1>:<b2>…, then @<index of the bucket the value 100+idx is counted in>
-    aggShow s.agg ++ (if b = Gen.defaultHistogramBounds then "" else String.join (b.map fun x => ":" ++ toString x)) ++
-      "@" ++ toString (bucketIndex b (100 + idx))
+    aggShow e.stream.agg ++ (if b = Gen.defaultHistogramBounds then "" else String.join (b.map fun x => ":" ++ toString x)) ++
+      String.join (((List.range (b.length + 1)).filter fun bi => e.values.any (bucketIndex b · == bi)).map fun bi => "@" ++ toString bi)
 
-def showStream (idx : Nat) (s : Stream) : String :=
-  s!"n={hexArg s.name},d={hexArg s.description},u={hexArg s.unit},t={itypeShow s.type},a={showAgg idx s},k={showKeys s.keys},v=" ++
-    (if s.agg = .drop then "-" else toString (100 + idx))
+/-- the value of the exported point: the sum of what was recorded (sum, histogram), the last value, nothing for drop -/
+def showValue (e : Entry) : String :=
+  match e.stream.agg with
+  | .drop => "-"
+  | .lastValue => toString (e.values.getLast?.getD 0)
+  | _ => toString e.values.sum
+
+def showEntry (e : Entry) : String :=
+  let s := e.stream
+  s!"n={hexArg s.name},d={hexArg s.description},u={hexArg s.unit},t={itypeShow s.type},a={showAgg e},k={showKeys s.keys},v={showValue e}"
 
 /-- `-` = no aggregation config, else strictly increasing boundaries `b1,b2,…` -/
 def boundsArg (t : String) : Option (Option (List Nat)) :=
@@ -86,7 +93,7 @@ def handleMv (toks : List String) : String :=
           let hb ← boundsArg hb
           pure ⟨⟨it, np, unit⟩, ⟨smn, smv, sms⟩, ⟨vn, vd, vu, agg, flt, hb⟩⟩
         | _ => none
-      let instrs : Option (List Instr) := (ops.filter (·.head? ≠ some "v")).mapM fun op =>
+      let instrs : Option (List (Instr × Bool)) := (ops.filter (·.head? ≠ some "v")).mapM fun op =>
         match op with
         | ["i", it, vt, n, u, d] => do
           let it ← itypeArg it
@@ -94,12 +101,15 @@ def handleMv (toks : List String) : String :=
           let n ← ofHexStr n
           let u ← ofHexStr u
           let d ← ofHexStr d
-          pure ⟨it, n, u, d⟩
+          pure (⟨it, n, u, d⟩, vt == "d")
         | _ => none
       match reg, instrs with
       | some reg, some instrs =>
-        let streams := (instrs.zipIdx.map fun (i, idx) => (exported en reg sc i measuredKeys).map (showStream idx)).flatten
-        "[" ++ "|".intercalate (sortStrs streams) ++ "]"
+        -- two handles for one observable instrument (same name, type, value type) are outside this model (C17)
+        let obsIds := (instrs.filter (·.1.type.observable)).map fun (i, dbl) => (i.name, i.type, dbl)
+        if obsIds.eraseDups.length ≠ obsIds.length then "bad-op" else
+        let st := instrs.zipIdx.foldl (fun st ((i, dbl), idx) => createAndRecord en reg sc measuredKeys st i dbl (100 + idx)) []
+        "[" ++ "|".intercalate (sortStrs (st.map showEntry)) ++ "]"
       | _, _ => "bad-op"
     | _, _, _, _ => "bad-op"
   | _ => "bad-op"
